@@ -10,7 +10,9 @@
     write, none when it is zero; nothing but the addressed item disappears across the other calls.  cull():
     expired rows are gone, afterwards volume() <= size_limit or the cache is empty, pages are removed only after a
     volume() reading > size_limit, policy order, return value = number of rows removed.  FanoutCache: every shard's
-    size_limit is size_limit / shards, and the same monitor runs per shard.
+    size_limit is size_limit / shards, and the same monitor runs per shard.  The size recorded for a row kept in a file is the size of that
+    file (so volume() is what the cache occupies); FanoutCache.cull() / DjangoCache.cull() with writes skewed to one shard: each shard against
+    its own share, expired rows of every shard gone, count = rows that disappeared.
 (b) CORRESPONDENCE: the same histories through model/CacheRun.run_cmp (rows, counters, files, results after every call).
 """
 import os
@@ -52,6 +54,8 @@ ASSUMPTIONS = [
     'none and cull_limit > 0, removes at least one row (possibly the one it stored); checked only in the boundary-limit cases, where the limit is at or below '
     'the volume of the empty cache; the expected per-shard limit is size_limit / shards as Python computes it',
     'single client except for the bulk-removal contention cases, where the second client only holds locks (it writes nothing)',
+    'the size of a value kept in a file is the size of that file (os.path.getsize): the monitor adds the difference between a row\'s recorded size and '
+    'its file to the volume it judges by, and reports the difference itself (recorded_size_differs_from_file)',
     'second handles: the handles of one case are used one after the other (never at the same time); copy.copy of a DjangoCache shares its FanoutCache '
     'and is not generated; the ledgers of the monitor are started afresh after another process wrote (its rows are judged by the limit clauses only)',
 ]
@@ -69,15 +73,43 @@ READS = ('get', 'contains', 'touch', 'len', 'iter', 'reversed', 'iterkeys', 'sta
 # driver: sequential runner that also records what volume() returned and an independent volume after each call
 
 
-def independent_volume(directory):
+def volume_and_sizes(directory):
+    """(volume, size hits) of one cache directory, read through one connection of the harness.
+    volume: what the cache occupies, seen from outside: the pages of the database plus the bytes the stored values take -- the size counter of
+    the Settings table, corrected by the difference between the recorded size of every row kept in a file and the size that file really has
+    (no difference as long as every row records the size of its file).
+    size hits: [(sig, text)] -- the size limit is about what the cache occupies, so the size recorded for an item kept in a file is the
+    size of that file."""
     con = sqlite3.connect(os.path.join(directory, 'cache.db'))
     try:
         ((pc,),) = con.execute('PRAGMA page_count').fetchall()
         ((ps,),) = con.execute('PRAGMA page_size').fetchall()
         ((sz,),) = con.execute('SELECT value FROM Settings WHERE key = "size"').fetchall()
-        return pc * ps + sz
+        rows = con.execute('SELECT key, filename, size FROM Cache WHERE filename IS NOT NULL ORDER BY rowid').fetchall()
     finally:
         con.close()
+    vol, hits = pc * ps + sz, []
+    for key, filename, size in rows:
+        try:
+            real = os.path.getsize(os.path.join(directory, filename))
+        except OSError:
+            continue            # no such file: C08 / C17
+        if size != real:
+            vol += real - (size or 0)
+            if not hits:
+                key = bytes(key) if isinstance(key, memoryview) else key
+                hits.append(('recorded_size_differs_from_file', 'the row of key %r records size %r, its value file %s holds %d bytes (volume() counts the recorded sizes, '
+                             'so the size limit is compared with a volume that is off by the difference)' % (
+                                 key if not isinstance(key, bytes) else '<%d bytes>' % len(key), size, filename, real)))
+    return vol, hits
+
+
+def independent_volume(directory):
+    return volume_and_sizes(directory)[0]
+
+
+def size_hits(directory):
+    return volume_and_sizes(directory)[1]
 
 
 class Runner9(seqdrv.Runner):
@@ -87,6 +119,7 @@ class Runner9(seqdrv.Runner):
         self.readings = []
         self.readings_per_call = []
         self.post_per_call = []
+        self.size_hits_per_call = []
         self.vol0 = independent_volume(self.dir)
         readings = self.readings
 
@@ -101,7 +134,9 @@ class Runner9(seqdrv.Runner):
         del self.readings[:]
         out = super().call(item)
         self.readings_per_call.append(list(self.readings))
-        self.post_per_call.append(independent_volume(self.dir))
+        vol, bad = volume_and_sizes(self.dir)
+        self.post_per_call.append(vol)
+        self.size_hits_per_call.append(bad)
         return out
 
 
@@ -348,6 +383,14 @@ def big_values():
     return ['A' * 1000, 'B' * 2500, 'C' * 4000, b'D' * 6000, 'E' * 1500, 5]
 
 
+def text_values(big=False):
+    """text whose UTF-8 form is longer than its length: code points of 2, 3 and 4 bytes and a mix; like the other values their sizes on disk
+    are multiples of 10 bytes (20, 30, 20, 50, 80, 60), all file-backed under min_file_size = 8"""
+    if big:
+        return ['\xc9' * 1500, '\u20ac' * 1000, 'a\xe9\u20ac\U0001F600' * 250]
+    return ['\xe9' * 10, '\u20ac' * 10, '\U0001F600' * 5, 'a\xe9\u20ac\U0001F600' * 5, '\xfc' * 40, '\u4e2d' * 20]
+
+
 STREAMS = {
     # name: (clock steps, description)
     'increasing': ([TICK, 0.5, 1, 1, 2], 'strictly increasing clock'),
@@ -355,7 +398,7 @@ STREAMS = {
 }
 
 
-def make_history(rng, cfg, stream, n, nkeys, big=False, cull_weight=3):
+def make_history(rng, cfg, stream, n, nkeys, big=False, cull_weight=3, nonascii=False):
     steps, _ = STREAMS[stream]
     # integer keys are kept outside (0, 999999999999999): inside it they would be members of the default push queue
     keys = [10 ** 15 + i for i in range(1, nkeys // 2 + 1)] + ['k%d' % i for i in range(nkeys - nkeys // 2)]
@@ -364,6 +407,8 @@ def make_history(rng, cfg, stream, n, nkeys, big=False, cull_weight=3):
     g = gen_hist.Gen(rng, cfg, weights=weights, keys=keys, ttls=[None, None, None, None, None, 1, 2, 5, TICK],
                      prefixes=[None, None, 'q'], steps=steps)
     g.vals = big_values() if big else small_values()
+    if nonascii:
+        g.vals = g.vals + text_values(big)
     hist = g.history(n)
     if stream == 'increasing':
         prev = None
@@ -433,6 +478,8 @@ def monitor_trace(r, tr, cfg, stats):
             hits.append((i, sig, desc))
         if stats['writes_evicted_policy'] + stats['cull_evicted_policy'] > p0:
             evicted = True
+        for sig, desc in (r.size_hits_per_call[i] if i < len(getattr(r, 'size_hits_per_call', [])) else []):
+            hits.append((i, sig, desc))
         before = after
     stats['histories'] += 1
     if evicted:
@@ -500,7 +547,7 @@ def monitored_histories(ctx, res, stats, plan, keep_for_model=None, want_shrink=
     for (policy, cull_limit, stream, n, nkeys, big) in plan:
         cfg = config_for(ctx.rng, policy, cull_limit, big)
         cw = 8 if cull_limit == 0 else 3
-        g, hist = make_history(ctx.rng, cfg, stream, n, nkeys, big, cull_weight=cw)
+        g, hist = make_history(ctx.rng, cfg, stream, n, nkeys, big, cull_weight=cw, nonascii=keep_for_model is None)
         r, tr = run_history(ctx, cfg, g.objs, hist)
         ckey = '%s/cull_limit=%d/%s%s' % (policy, cull_limit, stream, '/big' if big else '')
         stats['configs'][ckey] = stats['configs'].get(ckey, 0) + 1
@@ -654,7 +701,7 @@ def fanout_history(ctx, res, stats, shards, policy, cull_limit, nops, stream, ex
             sh.volume = volume
         steps = STREAMS[stream][0]
         keys = [10 ** 15 + i for i in range(1, 9)] + ['k%d' % i for i in range(8)]
-        vals = small_values()
+        vals = small_values() + text_values()
         befores = [rowdict(seqdrv.observe(sh.directory)[0]) for sh in fc._shards]
         now = 1000.0
         for step in range(nops):
@@ -695,21 +742,21 @@ def fanout_history(ctx, res, stats, shards, policy, cull_limit, nops, stream, ex
             idx_t = fc._hash(k) % shards
             for idx, sh in enumerate(fc._shards):
                 after = rowdict(seqdrv.observe(sh.directory)[0])
+                post, sized = volume_and_sizes(sh.directory)
                 if op == 'cull':
                     # FanoutCache.cull sums the shards: drive each shard's own cull() so the count is per shard
                     del readings[idx][:]
                     result_s = sh.cull()
                     after = rowdict(seqdrv.observe(sh.directory)[0])
-                    out = mons[idx].step('cull', None, now, result_s, befores[idx], after, list(readings[idx]),
-                                         independent_volume(sh.directory))
+                    post, sized = volume_and_sizes(sh.directory)
+                    out = mons[idx].step('cull', None, now, result_s, befores[idx], after, list(readings[idx]), post)
                 elif idx == idx_t:
-                    out = mons[idx].step(op, dbkey(sh.disk, k), now, result, befores[idx], after, list(readings[idx]),
-                                         independent_volume(sh.directory), None, wsu)
+                    out = mons[idx].step(op, dbkey(sh.disk, k), now, result, befores[idx], after, list(readings[idx]), post, None, wsu)
                 else:
-                    out = mons[idx].step('len', None, now, None, befores[idx], after, [], independent_volume(sh.directory))
+                    out = mons[idx].step('len', None, now, None, befores[idx], after, [], post)
                     out = [(('fanout_other_shard_changed' if s == 'read_removed' else s), dsc) for s, dsc in out]
                 befores[idx] = after
-                for s, dsc in out:
+                for s, dsc in out + sized:
                     hits.append((s, 'shard %d/%d: %s' % (idx, shards, dsc)))
             if hits:
                 break
@@ -1298,7 +1345,7 @@ def boundary_limit_case(case, d, stats=None):
                     return v
                 sh.volume = volume
             keys = [10 ** 15 + i for i in range(1, 13)] + ['k%d' % i for i in range(12)]
-            vals = [v for v in small_values() if not isinstance(v, Stream)]
+            vals = [v for v in small_values() if not isinstance(v, Stream)] + text_values()
 
             def full(k):
                 return obj.make_key(k, version=None) if kind == 'django' else k
@@ -1344,7 +1391,7 @@ def boundary_limit_case(case, d, stats=None):
                     gone = [i for i in befores[idx] if i not in after]
                     gone_total += len(gone)
                     rd = list(readings[idx])
-                    post = independent_volume(sh.directory)
+                    post, sized = volume_and_sizes(sh.directory)
                     if op == 'cull':
                         out = mons[idx].step('cull', None, now, None, befores[idx], after, rd, post)
                     elif idx == idx_t:
@@ -1360,7 +1407,7 @@ def boundary_limit_case(case, d, stats=None):
                         out = mons[idx].step('len', None, now, None, befores[idx], after, [], post)
                         out = [(('fanout_other_shard_changed' if s_ == 'read_removed' else s_), dsc) for s_, dsc in out]
                     befores[idx] = after
-                    for s_, dsc in out:
+                    for s_, dsc in out + sized:
                         hits.append((s_, 'shard %d/%d: %s' % (idx, len(caches), dsc)))
                 if op == 'cull':
                     info['removed_by_cull'] += gone_total
@@ -1487,7 +1534,7 @@ class ShardWatch:
             after = rowdict(seqdrv.observe(sh.directory)[0])
             gone_total += len([i for i in self.befores[idx] if i not in after])
             rd = list(self.readings[idx])
-            post = independent_volume(sh.directory)
+            post, sized = volume_and_sizes(sh.directory)
             if op == 'cull':
                 out = self.mons[idx].step('cull', None, now, None, self.befores[idx], after, rd, post)
             elif idx == idx_t:
@@ -1497,7 +1544,7 @@ class ShardWatch:
                 out = self.mons[idx].step('len', None, now, None, self.befores[idx], after, [], post)
                 out = [(('fanout_other_shard_changed' if s_ == 'read_removed' else s_), dsc) for s_, dsc in out]
             self.befores[idx] = after
-            hits += [(s_, 'shard %d/%d: %s' % (idx, len(self.caches), dsc)) for s_, dsc in out]
+            hits += [(s_, 'shard %d/%d: %s' % (idx, len(self.caches), dsc)) for s_, dsc in out + sized]
         return hits, gone_total, below
 
 
@@ -1505,7 +1552,7 @@ def _handle_drive(watch, rng, clock, now, nsteps, log, info, key_tag):
     """sets (a few with ttls) and gets through the handle, the monitor after every call; stops at the first hit"""
     kind, obj = watch.kind, watch.obj
     keys = [10 ** 15 + i for i in range(1, 13)] + ['%s%d' % (key_tag, i) for i in range(12)]
-    vals = [v for v in small_values() if not isinstance(v, Stream)]
+    vals = [v for v in small_values() if not isinstance(v, Stream)] + text_values()
     for step in range(nsteps):
         now += rng.choice([TICK, 0.5, 1, 1, 2])
         clock.set(now)
@@ -1711,6 +1758,153 @@ def handle_limit_checks(ctx, res, stats, cases):
                 desc, case['kind'], case['shards'], info.get('size_limit'), case['policy'], case['cull_limit'], case['way']), c))
 
 
+# ---------------------------------------------------------------------------
+# cull() on a sharded cache whose writes are SKEWED: "for FanoutCache per shard with the limit divided by the shard count".  One shard is
+# written far more than the others, so it exceeds ITS share of the limit while the cache as a whole stays below the total; items with a
+# ttl are mixed in and the clock moves past them.  FanoutCache.cull() / DjangoCache.cull() must leave every shard at or below its own
+# limit (or empty), remove the expired items of every shard, and return the number of rows that disappeared.
+
+
+def skewed_cull_case(case, d, stats=None):
+    """One FanoutCache / DjangoCache(OPTIONS) constructed with size_limit = shards * (volume(empty) + rel).  case['skew'] of the writes go to
+    keys the object routes to shard case['hot'] (integer keys that are multiples of the shard count and text keys, partitioned by the shard
+    that holds them), the rest anywhere; some carry a ttl.  cull() is called whenever a shard has grown above its share while the sum of the
+    shard volumes is still within the total limit (and the draw says so), after the clock has moved past the ttls, and at the end.  Decided
+    per shard by the Monitor against size_limit / shards: expired rows gone, volume at or below the limit or the shard empty, policy order,
+    nothing unexpired removed under policy none; and the returned count is the number of rows that disappeared.  Returns (hits, info)."""
+    import random
+    rng = random.Random(case['seed'])
+    stats = stats if stats is not None else new_stats()
+    kind, shards, policy, cull_limit = case['kind'], case['shards'], case['policy'], case['cull_limit']
+    hits, log = [], []
+    info = {'writes': 0, 'culls': 0, 'culls_with_a_shard_over_its_share_and_the_total_within_the_limit': 0, 'culls_with_expired_items': 0, 'removed_by_cull': 0}
+    clock = instr.Clock(1000.0)
+    with instr.Installed(clock):
+        probe = diskcache.Cache(os.path.join(d, 'probe'))
+        v0 = probe.volume()
+        probe.close()
+        total = shards * (v0 + case['rel'])
+        info['size_limit'] = total
+        options = dict(size_limit=total, eviction_policy=policy, cull_limit=cull_limit, disk_min_file_size=8)
+        target = os.path.join(d, 'c')
+        obj = diskcache.FanoutCache(target, shards=shards, **options) if kind == 'fanout' else _django_cache(target, shards, options)
+        try:
+            want = total / shards
+            watch = ShardWatch(kind, obj, want, policy, cull_limit, stats)
+            hot = case['hot'] % shards
+            pool = [shards * i for i in range(1, 400)] + ['k%d' % i for i in range(400)]
+            hot_keys = [k for k in pool if watch.shard_of(k) == hot][:60]
+            other_keys = [k for k in pool if watch.shard_of(k) != hot][:60] or hot_keys
+            vals = [v for v in small_values() if not isinstance(v, Stream)] + text_values()
+            now = 1000.0
+            nhot = 0
+
+            def volumes():
+                return [independent_volume(sh.directory) for sh in watch.caches]
+
+            def expired_now():
+                return sum(1 for b in watch.befores for r_ in b.values() if r_['exp'] is not None and r_['exp'] < now)
+
+            def cull(why):
+                vols = volumes()
+                skewed = any(v > want for v in vols) and sum(vols) <= total
+                nexp = expired_now()
+                watch.begin()
+                result = obj.cull()
+                log.append(('cull', why, now, vols))
+                info['culls'] += 1
+                info['culls_with_a_shard_over_its_share_and_the_total_within_the_limit'] += int(skewed)
+                info['culls_with_expired_items'] += int(nexp > 0)
+                found, gone, _ = watch.step('cull', 'x', now, None, 64)
+                info['removed_by_cull'] += gone
+                ctxt = ' [cull() on %s(shards=%d) with shard volumes %r, size_limit %r = %r per shard, %d expired row(s)]' % (kind, shards, vols, total, want, nexp)
+                found = [(s_, dsc + ctxt) for s_, dsc in found]
+                if not isinstance(result, int) or result != gone:
+                    found.append(('cull_count', '%s.cull() returned %r but %d row(s) disappeared%s' % (kind, result, gone, ctxt)))
+                return found
+            for step in range(case['nsteps']):
+                now += rng.choice([TICK, 0.5, 1, 1])
+                clock.set(now)
+                r = rng.random()
+                if r < 0.08 and step > 5:
+                    now += 3              # past every ttl handed out so far
+                    clock.set(now)
+                    hits = cull('after the clock moved past the ttls')
+                elif r < 0.2 and step > 3:
+                    k = rng.choice(hot_keys[:max(1, nhot)] + other_keys[:6])
+                    watch.begin()
+                    got = obj.get(k, default=seqdrv.SENT)
+                    log.append(('get', repr(k), now))
+                    hits = watch.step('get', k, now, 'default' if got is seqdrv.SENT else got, 64)[0]
+                else:
+                    if rng.random() < case['skew']:
+                        k = hot_keys[nhot % len(hot_keys)]
+                        nhot += 1
+                    else:
+                        k = rng.choice(other_keys[:12])
+                    v = rng.choice(vals)
+                    ttl = rng.choice([None] * 5 + [1, 2])
+                    watch.begin()
+                    result = obj.set(k, v, timeout=ttl) if kind == 'django' else obj.set(k, v, expire=ttl)
+                    log.append(('set', repr(k), now, repr(v)[:16], ttl))
+                    info['writes'] += 1
+                    hits = watch.step('set', k, now, result, size_upper(v, 5))[0]
+                    if not hits:
+                        vols = volumes()
+                        if any(x > want for x in vols) and sum(vols) <= total and rng.random() < 0.5:
+                            hits = cull('a shard is above its share, the total is within the limit')
+                if hits:
+                    break
+            if not hits:
+                hits = cull('at the end')
+        finally:
+            obj.close()
+    info['ops'] = log
+    return hits, info
+
+
+def skewed_cull_cases(rng, quick):
+    objs = [('fanout', 2), ('fanout', 3), ('fanout', 4), ('django', 2), ('django', 3), ('fanout', 8)]
+    cases = []
+    n = rng.randrange(12)
+    for kind, shards in objs:
+        for rep_ in range(2 if quick else 4):
+            pols = [POLICIES[n % 4]] if quick else POLICIES
+            for policy in pols:
+                cases.append({'check': 'skewed_cull', 'kind': kind, 'shards': shards, 'policy': policy, 'cull_limit': [0, 0, 0, 1, 10, 0][n % 6],
+                              'rel': [300, 600, 900][n % 3], 'hot': rng.randrange(shards), 'skew': rng.choice([0.8, 0.9, 1.0]),
+                              'nsteps': 40 if quick else 90, 'seed': rng.randrange(10 ** 6)})
+                n += 1
+    return cases
+
+
+def skewed_cull_checks(ctx, res, stats, cases):
+    seen = set()
+    st = stats.setdefault('skewed_culls', {'cases': 0, 'writes': 0, 'culls': 0, 'culls_with_a_shard_over_its_share_and_the_total_within_the_limit': 0,
+                                           'culls_with_expired_items': 0, 'removed_by_cull': 0})
+    for case in cases:
+        d = ctx.scratch('c09k')
+        try:
+            hits, info = skewed_cull_case(case, d, stats)
+        except Exception as e:  # noqa
+            hits, info = [('skewed_cull:error', 'the case failed with %r' % (e,))], {}
+        shutil.rmtree(d, ignore_errors=True)
+        st['cases'] += 1
+        for k in ('writes', 'culls', 'culls_with_a_shard_over_its_share_and_the_total_within_the_limit', 'culls_with_expired_items', 'removed_by_cull'):
+            st[k] += info.get(k, 0)
+        res.count(['skewed-cull', {k: v for k, v in case.items() if k != 'seed'}, info.get('ops', [])[:6]],
+                  nontrivial=info.get('culls_with_a_shard_over_its_share_and_the_total_within_the_limit', 0) > 0 or info.get('culls_with_expired_items', 0) > 0)
+        for sig, desc in hits:
+            sig = sig if sig.startswith('skewed_cull:') else 'skewed_cull:' + sig
+            if sig in seen:
+                continue
+            seen.add(sig)
+            c = dict(case)
+            c.update({'size_limit': info.get('size_limit'), 'ops': info.get('ops', [])[-40:], 'sig': sig, 'what': desc})
+            res.violations.append(fw.Violation(sig, '%s [%s(shards=%d) constructed with size_limit %r, policy %s, cull_limit %d; %d%% of the writes go to shard %d]' % (
+                desc, case['kind'], case['shards'], info.get('size_limit'), case['policy'], case['cull_limit'], int(case['skew'] * 100), case['hot'] % case['shards']), c))
+
+
 def plan_for(ctx, per_combo, length, big_every=0):
     plan = []
     j = 0
@@ -1750,7 +1944,14 @@ RULE = ('random histories of set/add/get/incr/push/touch/delete/pop/contains/cul
         'over the directory without settings, that followed by a pickle round trip, or pickle.loads in a forked process: every shard of the second '
         'handle carries size_limit / shards (attribute and Settings table), and the monitor clauses hold per shard against that limit for sets (some '
         'with ttls) and gets through the second handle and then through the first (no unexpired row disappears across a write that read a volume '
-        'below the limit).')
+        'below the limit).  Sizes: the histories that do not go through the model and every FanoutCache / DjangoCache family also store text with 2-, 3- and '
+        '4-byte code points on the file side of the threshold (20-80 bytes on disk; 2-3 kB in the large-value stream); after every call the size recorded '
+        'for each row kept in a file must be the size of that file, and the volume the monitor judges eviction and cull() by counts the files as they are '
+        'on disk.  Skewed writes: FanoutCache(shards 2, 3, 4, 8) and DjangoCache(SHARDS 2, 3) constructed with size_limit = shards * (volume(empty) + '
+        '{300, 600, 900}), every policy, cull_limit 0 (mostly), 1, 10; 80-100 % of the sets (some with ttls) go to keys routed to ONE shard (integer '
+        'multiples of the shard count, text keys), so that this shard exceeds size_limit / shards while the sum of the shard volumes stays within '
+        'size_limit; cull() is called in that state, after the clock has moved past the ttls, and at the end: every shard ends at or below its own '
+        'limit or empty, no expired row is left in any shard, policy order per shard, and the returned count is the number of rows that disappeared.')
 
 
 def report(res):
@@ -1787,6 +1988,7 @@ def run(ctx):
     bulk_contention_checks(ctx, res, stats, bulk_contention_cases(ctx.rng, ctx.quick))
     import random
     handle_limit_checks(ctx, res, stats, handle_limit_cases(random.Random('C09-handles-%d' % ctx.seed), ctx.quick))
+    skewed_cull_checks(ctx, res, stats, skewed_cull_cases(random.Random('C09-skew-%d' % ctx.seed), ctx.quick))
     witnesses(res)
     if not ctx.search_mode:
         correspondence(ctx, res, stats, kept)
@@ -1822,6 +2024,7 @@ def search(ctx, broken):
     bulk_contention_checks(ctx, res, stats, bulk_contention_cases(ctx.rng, ctx.quick))
     import random
     handle_limit_checks(ctx, res, stats, handle_limit_cases(random.Random('C09-handles-search-%d' % ctx.seed), ctx.quick))
+    skewed_cull_checks(ctx, res, stats, skewed_cull_cases(random.Random('C09-skew-search-%d' % ctx.seed), ctx.quick))
     witnesses(res)
     report(res)
     return res
@@ -1894,6 +2097,22 @@ def replay(payload):
             print('%s(shards=%d) constructed with size_limit=%r, policy %s, cull_limit %d: %d writes (%d at or above the limit), %d cull() calls removed %d row(s)'
                   % (case['kind'], case['shards'], info.get('size_limit'), case['policy'], case['cull_limit'], info.get('writes', 0),
                      info.get('writes_at_or_over_limit', 0), info.get('culls', 0), info.get('removed_by_cull', 0)))
+            for sig, desc in hits:
+                print('MONITOR [%s]: %s' % (sig, desc))
+            return not hits
+        finally:
+            shutil.rmtree(d, ignore_errors=True)
+    if check == 'skewed_cull':
+        d = tempfile.mkdtemp(prefix='c09r-')
+        try:
+            hits, info = skewed_cull_case(case, d)
+            print('%s(shards=%d) constructed with size_limit=%r, policy %s, cull_limit %d, %d%% of the writes to shard %d: %d writes, %d cull() calls (%d with a shard above '
+                  'its share and the total within the limit, %d with expired items) removed %d row(s)' % (
+                      case['kind'], case['shards'], info.get('size_limit'), case['policy'], case['cull_limit'], int(case['skew'] * 100), case['hot'] % case['shards'],
+                      info.get('writes', 0), info.get('culls', 0), info.get('culls_with_a_shard_over_its_share_and_the_total_within_the_limit', 0),
+                      info.get('culls_with_expired_items', 0), info.get('removed_by_cull', 0)))
+            for op in info.get('ops', [])[-12:]:
+                print('  ', op)
             for sig, desc in hits:
                 print('MONITOR [%s]: %s' % (sig, desc))
             return not hits
